@@ -21,22 +21,27 @@ func (Driver) ID() string { return "C14" }
 func (Driver) Info() core.Info {
 	return core.Info{
 		Title: "number, string, encoding and date functions match reference semantics",
-		Rule: "case = (stdlib function, wholly known argument list). Per function a dedicated generator draws the arguments: numbers from gen.NumberPool()/gen.Number " +
-			"(every magnitude/precision class, zeros, infinities), strings over gen.Alphabet41 plus a pool of multi-code-point grapheme clusters, format strings from the documented " +
-			"verb grammar (flags, width, precision, [n] index, unsupported verbs, malformed sequences) with arguments fitted to the verbs, regular expressions from a small RE2 grammar, " +
-			"JSON texts / JSON-representable values, CSV texts, RFC 3339 timestamps (offsets, fractions, leap days, invalid mutations), durations and date format strings from the verb table. " +
-			"The real Function.Call runs next to an independent reference computation; the oracle is: error exactly where the reference says the input is outside the documented domain, " +
-			"otherwise the documented result type and a model-equal result (numbers to the stated tolerance). Inputs whose outcome the documentation does not pin are executed (no panic) but " +
-			"not asserted and are counted under free:*. distinct = hash of (function, arguments); non-trivial = the reference asserted an outcome for the case",
+		Rule: "case = (stdlib function, wholly known argument list); 45 functions (20 number, 15 string, 3 regex, format/formatlist, jsonencode/jsondecode/csvdecode, formatdate/timeadd), 2000 (quick) / 300000 (thorough) generated cases each. " +
+			"Per function a dedicated generator draws the arguments: numbers from gen.NumberPool()/gen.Number (every magnitude/precision class, zeros, infinities), strings from random code points over gen.Alphabet41 and from a pool of " +
+			"multi-code-point grapheme clusters (combining marks, emoji modifiers, ZWJ families, regional indicators, keycaps, Hangul jamo, CRLF), format strings from the documented verb grammar (flags, width, precision, [n] index, " +
+			"unsupported verbs, malformed sequences) with arguments fitted to the verbs, regular expressions from a small RE2 grammar (named/unnamed/mixed groups, invalid patterns), JSON texts written by encoding/json then mutated, " +
+			"JSON-representable and typed values, CSV texts written by encoding/csv plus odd texts, RFC 3339 timestamps (offsets, fractions, leap days, 16 kinds of invalid mutation), durations and date format strings from the verb table. " +
+			"1 case in 64 replaces an argument by null (parameters that do not allow null). Batch 0 adds a fixed corpus (witnesses of every finding, transcribed boundary rows) and five completely enumerated sub-spaces. " +
+			"The real Function.Call runs next to an independent reference computation; the oracle is: error exactly where the reference says the input is outside the documented domain, otherwise the documented result type and a " +
+			"model-equal result (numbers to the stated tolerance); for jsonencode additionally jsondecode(jsonencode(v)) = v. Inputs whose outcome the documentation does not pin are executed (no Go panic; substr results must still " +
+			"be whole clusters) but not asserted and are counted under free:*. distinct = hash of (function, arguments); non-trivial = the reference asserted an outcome for the case",
 		Assumptions: []string{
-			"trusted base: math/big, strings, regexp, fmt, encoding/json, encoding/csv, time, unicode/utf8 of the Go standard library; textseg v15 grapheme segmentation; x/text NFC normalisation",
+			"trusted base: math/big, math, strings, regexp, fmt, encoding/json, encoding/csv, time, unicode/utf8 of the Go standard library; textseg v15 grapheme segmentation; x/text NFC normalisation",
 			"strings are valid UTF-8 (cty documents anything else as undefined); cty.StringVal normalises to NFC, references work on the NFC string and results are compared after NFC",
-			"log/pow are compared with math.Log/math.Pow on the float64 rounding of the operands, tolerance 1 ulp",
-			"arithmetic tolerance: exact when the exact result is an integer representable at the smaller operand precision, else relative error 2^-(p-2)",
+			"log/pow are compared with math.Log/math.Pow on the float64 rounding of the operands, tolerance 1 ulp; operands beyond the float64 range are not asserted",
+			"arithmetic and comparison oracles are those of C02: exact when the exact result is an integer representable at the smaller operand precision, else relative error 2^-(p-2); lte/gte count two non-integers with the same shortest decimal text as a tie; modulo as a - b*trunc(a/b) with the C02 near-integer-quotient rule",
 			"a function.PanicError returned for an input OUTSIDE the documented domain is an error and therefore not a C14 violation; it is logged as a cross-property note for C11",
 			"lt/lte/gt/gte follow the doc comments of the Go wrappers and the table tests (lt(a,b) = a<b); their Description strings state the operands the other way round",
+			"format: %v is asserted as the verb the documentation says it selects (%s, %g, %t, JSON); numbers are rendered by Go's fmt on *big.Int / *big.Float; widths and %s/%q precisions count grapheme clusters; '-' together with '0', a period without digits, precision on JSON output, the text of non-integer numbers under %s and string to bool from \"1\"/\"0\" are not pinned and not asserted",
+			"jsonencode is compared through encoding/json: the result must parse to the value (a number text must denote the number at the number's own precision or be its shortest decimal text) and be byte-identical to encoding/json's compact re-encoding whenever that is NFC-stable; set members may come in any order",
+			"RFC 3339 validity is decided from the grammar of RFC 3339 section 5.6; lower-case t/z and the leap second :60 are not asserted; the instant of a valid timestamp is taken from time.Parse",
 		},
-		MinNontrivial: 20000,
+		MinNontrivial: 50000,
 	}
 }
 
@@ -122,7 +127,7 @@ var nullAllowed = map[string]bool{"format": true, "formatlist": true, "jsonencod
 
 func (Driver) Run(c *core.Ctx) {
 	fns := allFns()
-	perFn := int64(c.N(2000, 100000))
+	perFn := int64(c.N(2000, 300000))
 	nb := int64(c.NBatches)
 	per := (perFn + nb - 1) / nb // cases per function in this batch
 	for fi := range fns {
